@@ -116,7 +116,10 @@ CHECKS = {
     'C08': {
         'text': 'PARTIAL. Theorems in coq/props/C08.v on the exporter model: every excerpt ends with spine terminators (existing '
                 'row or a synthetic row sized by the spine operators before it), its body is C07\'s stage range, bad ranges are '
-                'rejected. The composition import-export-import (header first, rectangular, re-imports without errors, same '
+                'rejected; **signatures in force**: in every imported document a node\'s signature dictionary reads, per class, '
+                'exactly the nearest signature cell of that class above it on its spine path (C08_signatures_in_force_partial, '
+                'an import invariant), and the signature block of an excerpt is made column by column of these dictionaries '
+                'minus the entries replaced before the first note (C08_excerpt_signature_block_partial). The composition import-export-import (header first, rectangular, re-imports without errors, same '
                 'clef/key/meter in force for every note) is NOT proved; for the claimed core class it is decided by running '
                 'kernpy on every range of generated documents with an independent path walk over excerpt and full score, and '
                 'by model/impl correspondence. The other classes are explored and reported as finding K5.',
@@ -218,8 +221,10 @@ CHECKS = {
                 'same staff position under G2 (closed formula), hence identity under G2, k diatonic steps -> k steps, bottom '
                 'line -> e, accidental copied; create_clef ignores any run of octave marks. Correspondence: the whole clef x '
                 'marks x letter x alteration x octave grid, malformed clefs and position strings, against the extracted model '
-                'and the Coq oracle. Document level (akern vs kern export, clef in force) is decided by correspondence and '
-                'monitors on generated documents (clef in force through splits and clef changes), not by a theorem; known finding K6 (naturals / display suffixes).',
+                'and the Coq oracle. Document level: the clef handed to the conversion of a node is, in every imported document, '
+                'the nearest clef cell above it on its spine path through splits and joins (C10_clef_in_force_is_nearest_above, '
+                'an import invariant); the composition with the export (akern vs kern export) is decided by correspondence and '
+                'monitors on generated documents (clef in force through splits and clef changes); known finding K6 (naturals / display suffixes).',
         'note': _COMMON_NOTE + 'int(str(n)) == n for the staff-position number is python builtin behaviour, checked in-kernel on the window -300..300 only (the theorems use the structured path).',
         'technique': 'Coq proof (Z.div/mod arithmetic by lia + finite table facts by vm_compute) over translator-regenerated clef tables; exhaustive model/impl correspondence',
     },
